@@ -189,6 +189,15 @@ Proof.
   rewrite del_sess_image. reflexivity.
 Qed.
 
+Lemma sim_store_new r e cmds :
+  store_new (image r) e =
+  image {| r_sessions := (e, cmds) :: rdel (e_id e) (r_sessions r);
+           r_routes := filter (fun kv => negb (bytes_eqb (snd kv) (e_id e))) (r_routes r) |}.
+Proof.
+  unfold store_new, store. rewrite !image_eq. cbn [c_cmdmap c_sessions r_sessions r_routes map fst].
+  rewrite del_sess_image. f_equal. rewrite filter_map. reflexivity.
+Qed.
+
 Lemma sim_map_command r t a cm sid :
   wf_routes r -> wf_triple (t, a, cm) ->
   map_command (image r) t a cm sid =
@@ -259,10 +268,11 @@ Lemma sim_store_client_session r now tag addr fo :
   /\ wf_routes (ref_establish r now tag addr fo).
 Proof.
   intros Ht Ha Hw. unfold store_client_session, ref_establish.
-  rewrite (sim_store r (client_entry now tag addr fo) (cmds_of (f_valid fo))).
+  rewrite (sim_store_new r (client_entry now tag addr fo) (cmds_of (f_valid fo))).
   change (e_id (client_entry now tag addr fo)) with (f_sid fo).
   apply sim_fold_cmds; auto.
-  intros x Hx. apply raw_cmds_no_comma in Hx. exact Hx.
+  - intros x Hx. apply raw_cmds_no_comma in Hx. exact Hx.
+  - unfold wf_routes. cbn [r_routes]. apply wf_routes_filter. exact Hw.
 Qed.
 
 Lemma e_id_renew e now : e_id (renew_lease e now) = e_id e.
@@ -384,28 +394,26 @@ Proof.
   - apply (S tr id y); auto. apply filter_In in H2. tauto.
 Qed.
 
-Lemma used_image r : used (image r) = map (fun x => e_id (fst x)) (r_sessions r) ++ map snd (r_routes r).
-Proof.
-  unfold used, image. cbn [c_sessions c_cmdmap]. rewrite !map_map. reflexivity.
-Qed.
-
 Lemma sound_establish r now tag addr fo :
-  ~ In (f_sid fo) (used (image r)) -> sound r -> sound (ref_establish r now tag addr fo).
+  sound r -> sound (ref_establish r now tag addr fo).
 Proof.
-  intros Hf S. rewrite used_image in Hf.
+  intros S.
   set (new := (client_entry now tag addr fo, cmds_of (f_valid fo))).
   set (P := fun r' : rstate =>
          r_sessions r' = new :: rdel (f_sid fo) (r_sessions r) /\
          forall tr id, In (tr, id) (r_routes r') ->
-           In (tr, id) (r_routes r) \/
+           (In (tr, id) (r_routes r) /\ id <> f_sid fo) \/
            (id = f_sid fo /\ fst (fst tr) = tag /\ snd (fst tr) = addr /\ In (snd tr) (cmds_of (f_valid fo)))).
   assert (HP : P (ref_establish r now tag addr fo)).
   { unfold ref_establish. fold new.
     assert (Hl : forall cmd, In cmd (raw_cmds (f_valid fo)) -> In cmd (raw_cmds (f_valid fo))) by auto.
     revert Hl. generalize (raw_cmds (f_valid fo)) at 1 3 as l.
-    assert (P0 : P {| r_sessions := new :: rdel (f_sid fo) (r_sessions r); r_routes := r_routes r |}).
-    { split; [reflexivity|]. intros tr id H. left. exact H. }
-    revert P0. generalize {| r_sessions := new :: rdel (f_sid fo) (r_sessions r); r_routes := r_routes r |} as r0.
+    assert (P0 : P {| r_sessions := new :: rdel (f_sid fo) (r_sessions r);
+                      r_routes := filter (fun kv => negb (bytes_eqb (snd kv) (f_sid fo))) (r_routes r) |}).
+    { split; [reflexivity|]. intros tr id H. left. cbn [r_routes] in H. apply filter_In in H as [H1 H2].
+      split; [exact H1|]. cbn [snd] in H2. intro K. subst id. rewrite bytes_eqb_refl in H2. discriminate. }
+    revert P0. generalize {| r_sessions := new :: rdel (f_sid fo) (r_sessions r);
+                             r_routes := filter (fun kv => negb (bytes_eqb (snd kv) (f_sid fo))) (r_routes r) |} as r0.
     intros r0 P0 l. revert r0 P0. induction l as [|cmd l IH]; intros r0 P0 Hl; simpl; [exact P0|].
     apply IH; [|intros c Hc; apply Hl; right; exact Hc].
     destruct (trim_space cmd) as [|b cm'] eqn:E; [exact P0|].
@@ -417,11 +425,8 @@ Proof.
       + reflexivity.
     - apply Pr. unfold route_del in H. apply filter_In in H. tauto. }
   destruct HP as [Ps Pr]. intros tr id y H1 H2 H3. rewrite Ps in H2.
-  destruct (Pr tr id H1) as [Hold|(-> & Ht & Ha & Hc)].
-  - assert (Hne : id <> f_sid fo).
-    { intro K. apply Hf. apply in_or_app. right. rewrite <- K.
-      change id with (snd (tr, id)). apply in_map. exact Hold. }
-    destruct H2 as [<-|H2]; [exfalso; apply Hne; symmetry; exact H3|].
+  destruct (Pr tr id H1) as [[Hold Hne]|(-> & Ht & Ha & Hc)].
+  - destruct H2 as [<-|H2]; [exfalso; apply Hne; symmetry; exact H3|].
     apply (S tr id y); auto. apply filter_In in H2. tauto.
   - destruct H2 as [<-|H2].
     + cbn [fst snd new client_entry e_tag e_addr]. auto.
@@ -429,35 +434,28 @@ Proof.
       rewrite H3, bytes_eqb_refl in H2. discriminate.
 Qed.
 
-Lemma sound_full r now tag addr p :
-  (match on_full p with FOk fo => ~ In (f_sid fo) (used (image r)) | FFail => True end) ->
-  sound r -> sound (ref_full r now tag addr p).
+Lemma sound_full r now tag addr p : sound r -> sound (ref_full r now tag addr p).
 Proof.
-  intros Hf S. unfold ref_full. destruct (on_full p) as [fo|]; [|exact S].
+  intros S. unfold ref_full. destruct (on_full p) as [fo|]; [|exact S].
   destruct (f_sid fo) as [|b s] eqn:Es; [exact S|]. destruct addr; [exact S|].
-  rewrite <- Es in Hf. apply sound_establish; assumption.
+  apply sound_establish; assumption.
 Qed.
 
 Lemma sound_handshake r now t a cmd p :
-  wf_routes r -> wf_event (EHandshake t a cmd p) -> fresh_event (image r, now) (EHandshake t a cmd p) ->
   sound r -> sound (ref_handshake r now t a cmd p).
 Proof.
-  intros Hw (Ht & Ha & Hc) Hf S. cbn [fresh_event fst snd] in Hf. unfold client_action in Hf.
-  unfold ref_handshake. destruct a as [|b a']; [apply sound_full; [apply Hf; reflexivity|exact S]|].
-  destruct cmd as [cm|]; [|apply sound_full; [apply Hf; reflexivity|exact S]].
-  rewrite sim_lookup_by_command in Hf; [|exact Hw|repeat split; assumption].
+  intros S. unfold ref_handshake. destruct a as [|b a']; [apply sound_full; exact S|].
+  destruct cmd as [cm|]; [|apply sound_full; exact S].
   match goal with |- context [ref_lookup ?u ?v ?w] => destruct (ref_lookup u v w) as [x|] eqn:EL end.
-  - apply ref_lookup_In in EL as (Hin & _ & _). cbn [option_map] in Hf.
-    destruct (has_usable_key (fst x)).
-    + destruct (on_resume p (e_id (fst x))); auto using sound_drop, sound_renew.
-    + apply sound_full; [|exact S]. apply Hf. reflexivity.
-  - apply sound_full; [|exact S]. apply Hf. reflexivity.
+  - apply ref_lookup_In in EL as (Hin & _ & _).
+    destruct (has_usable_key (fst x)); [|apply sound_full; exact S].
+    destruct (on_resume p (e_id (fst x))); auto using sound_drop, sound_renew.
+  - apply sound_full; exact S.
 Qed.
 
-Lemma sound_step r now e :
-  wf_routes r -> wf_event e -> fresh_event (image r, now) e -> sound r -> sound (fst (ref_step (r, now) e)).
+Lemma sound_step r now e : sound r -> sound (fst (ref_step (r, now) e)).
 Proof.
-  intros Hw He Hf S. destruct e; cbn [ref_step fst].
+  intros S. destruct e; cbn [ref_step fst].
   - apply sound_handshake; assumption.
   - exact S.
   - apply sound_drop; exact S.
@@ -475,8 +473,8 @@ Lemma refine_from h : forall r now,
 Proof.
   induction h as [|e h IH]; intros r now Hw S G.
   - cbn. auto.
-  - destruct G as (He & Hf & G). destruct (sim_step r now e He Hw) as [E W].
-    pose proof (sound_step r now e Hw He Hf S) as S'.
+  - destruct G as (He & G). destruct (sim_step r now e He Hw) as [E W].
+    pose proof (sound_step r now e S) as S'.
     change (run_from (image r, now) (e :: h)) with (run_from (step (image r, now) e) h).
     change (ref_run_from (r, now) (e :: h)) with (ref_run_from (ref_step (r, now) e) h).
     rewrite E in *.
@@ -727,7 +725,8 @@ Proof.
   assert (Hfull : cache_ok (fst (full_auth c now t a p))).
   { unfold full_auth. destruct (on_full p) as [fo|]; [|exact H].
     destruct (f_sid fo); [exact H|]. destruct a; [exact H|]. cbn [fst].
-    unfold store_client_session. apply cache_ok_fold. exact H. }
+    unfold store_client_session. apply cache_ok_fold.
+    unfold cache_ok, store_new, store. cbn [c_cmdmap]. apply NoDup_keys_filter. exact H. }
   assert (Hres : forall c1 e, cache_ok c1 -> cache_ok (fst (resume_session c1 now e p))).
   { intros c1 e H1. unfold resume_session.
     destruct (on_resume p (e_id e)); cbn [fst]; auto using cache_ok_invalidate. }
@@ -806,7 +805,10 @@ Proof.
   - assert (Hfull : find_sess id (c_sessions (fst (full_auth c now t a p))) = None).
     { unfold full_auth. destruct (on_full p) as [fo|] eqn:Ef; [|exact H].
       destruct (f_sid fo) eqn:Es; [exact H|]. destruct a; [exact H|]. cbn [fst].
-      unfold store_client_session. rewrite fold_map_command_sessions. apply absent_store; [|exact H].
+      unfold store_client_session. rewrite fold_map_command_sessions.
+      change (c_sessions (store_new c (client_entry now t (b0 :: a) fo)))
+        with (c_sessions (store c (client_entry now t (b0 :: a) fo))).
+      apply absent_store; [|exact H].
       cbn [client_entry e_id]. apply (Hn t (b0 :: a) cmd p fo); [left; reflexivity|exact Ef]. }
     unfold client_handshake. destruct a as [|b a']; [exact Hfull|]. destruct cmd as [cm|]; [|exact Hfull].
     destruct (lookup_by_command c now t (b :: a') cm) as [e|] eqn:L; [|exact Hfull].
@@ -873,6 +875,16 @@ Proof.
   - rewrite find_store_same. discriminate.
   - rewrite find_store_other by exact Hne. apply H. exact Hin.
 Qed.
+Lemma no_orphans_store_new c e : no_orphans c -> no_orphans (store_new c e).
+Proof.
+  intros H kv Hin. unfold store_new, store in *. cbn [c_cmdmap c_sessions] in *.
+  apply filter_In in Hin as [Hin Hne]. cbv beta in Hne.
+  assert (Hne' : snd kv <> e_id e).
+  { intro K. destruct kv as [k v]. cbn [snd] in *. subst v. rewrite bytes_eqb_refl in Hne. discriminate. }
+  unfold find_sess. cbn [find]. unfold id_is at 1. rewrite bytes_eqb_neq by (intro K; apply Hne'; symmetry; exact K).
+  fold (find_sess (snd kv) (del_sess (e_id e) (c_sessions c))). rewrite find_del_other by exact Hne'.
+  apply H. exact Hin.
+Qed.
 Lemma no_orphans_map_command c t a cm sid :
   find_sess sid (c_sessions c) <> None -> no_orphans c -> no_orphans (map_command c t a cm sid).
 Proof.
@@ -910,8 +922,8 @@ Proof.
   { unfold full_auth. destruct (on_full p) as [fo|]; [|exact H].
     destruct (f_sid fo) eqn:Es; [exact H|]. destruct a; [exact H|]. cbn [fst].
     unfold store_client_session. apply no_orphans_fold.
-    - change (f_sid fo) with (e_id (client_entry now t (b0 :: a) fo)). rewrite find_store_same. discriminate.
-    - apply no_orphans_store. exact H. }
+    - change (f_sid fo) with (e_id (client_entry now t (b0 :: a) fo)). unfold store_new. rewrite find_store_same. discriminate.
+    - apply no_orphans_store_new. exact H. }
   assert (Hres : forall c1 e, no_orphans c1 -> no_orphans (fst (resume_session c1 now e p))).
   { intros c1 e H1. unfold resume_session.
     destruct (on_resume p (e_id e)); cbn [fst]; auto using no_orphans_invalidate, no_orphans_store. }
@@ -937,12 +949,4 @@ Proof.
   unfold run, run_from. assert (H0 : no_orphans (fst (empty_cache, 0))) by (intros kv []).
   revert H0. generalize (empty_cache, 0). induction h as [|e h IH]; intros st H; simpl; [exact H|].
   apply IH. apply no_orphans_step. exact H.
-Qed.
-
-(* hence the freshness side condition of the refinement only ever speaks about stored sessions *)
-Lemma used_stored c id : no_orphans c -> In id (used c) -> find_sess id (c_sessions c) <> None.
-Proof.
-  intros H Hin. unfold used in Hin. apply in_app_or in Hin as [Hin|Hin].
-  - apply in_map_iff in Hin as (e & <- & He). intro F. exact (find_sess_none _ _ e F He eq_refl).
-  - apply in_map_iff in Hin as (kv & <- & Hkv). apply H. exact Hkv.
 Qed.
